@@ -205,6 +205,8 @@ def gen_qrproto(g):
     if len(mm) != 1:
         g.broken.append('%s:connect_mx: greeting error default branch not found' % f)
     s('stGreetFail', mm[0] if mm and mm[0] else '', 'connect_mx: status before giving up on an unexpected greeting error (empty: none written)')
+    n('greetTimeoutNextMx', 1 if re.search(r'case ETIMEDOUT:\s*(?:/\*.*?\*/\s*)?quitmsg_if_net\(s\);\s*continue;', b, re.S) else 0,
+      'connect_mx: 1 iff a time-out while waiting for the greeting moves on to the next MX (quitmsg_if_net(s); continue)')
     n('greetingCode', _one(g, f, 'connect_mx', b, r'if \(\(s != (\d+)\) \|\| \(flagerr != 0\)\)', 'greeting code'), 'connect_mx: expected greeting code')
 
     # ---- greeting.c / greeting.h --------------------------------------------------------
@@ -247,7 +249,8 @@ def gen_qrproto(g):
         n(lean, mm[0] if len(mm) == 1 else None, 'greeting.h: ' + nm)
     mm = re.findall(r'#define EDONE (\d+)', g.text('include/qremote/qremote.h') or '')
     n('edone', mm[0] if len(mm) == 1 else None, 'qremote.h: EDONE')
-    return lean_module(items)
+    # every Gen file shares the namespace QsmtpModel.Gen: keep this one's names apart
+    return lean_module(items).replace('namespace QsmtpModel.Gen\n', 'namespace QsmtpModel.Gen.Qr\n').replace('end QsmtpModel.Gen\n', 'end QsmtpModel.Gen.Qr\n')
 
 
 GENERATORS = {'QrProto.lean': gen_qrproto}
